@@ -155,6 +155,8 @@ class RepeatedTimer:
     """
     def __init__(self, interval, dump_func, outfile):
         self._timer = None
+        self._lock = threading.Lock()
+        self._stopped = False
         self.interval = interval
         self.dump_func = dump_func
         self.outfile = outfile
@@ -168,15 +170,20 @@ class RepeatedTimer:
         self.dump_func(self.outfile)
 
     def start(self):
-        if not self.is_running:
-            self.next_call += self.interval
-            self._timer = threading.Timer(self.next_call - time.time(), self._run)
-            self._timer.start()
-            self.is_running = True
+        # `stop()` may arrive while `_run()` is between the timer firing and
+        # re-arming; never arm a timer that nobody is going to cancel
+        with self._lock:
+            if not self.is_running and not self._stopped:
+                self.next_call += self.interval
+                self._timer = threading.Timer(self.next_call - time.time(), self._run)
+                self._timer.start()
+                self.is_running = True
 
     def stop(self):
-        self._timer.cancel()
-        self.is_running = False
+        with self._lock:
+            self._stopped = True
+            self._timer.cancel()
+            self.is_running = False
 
 
 def find_module_script(module_name):
